@@ -48,15 +48,35 @@ def recover_input(cmd, profile):
     return dict(cfg=cfg, labels=labels, profile=profile)
 
 
+ABORTED = []   # inputs during which the pool killed the harness process (filled by gen_traces)
+
+
 def gen_traces(seed, profile, n, maxlabels):
-    cmd = [BIN, 'gen', str(seed), str(n), profile, str(maxlabels)]
-    p = subprocess.run(cmd, stdout=subprocess.PIPE, stderr=subprocess.PIPE, text=True, timeout=3000)
-    traces = [json.loads(l) for l in p.stdout.splitlines() if l.strip()]
+    """n traces of a profile; a trace in which the harness process dies (the pool panicked while panicking, or
+    poisoned something the harness needs) is recorded in ABORTED with its recovered input and generation carries
+    on with the next trace"""
+    traces, skip, died = [], 0, 0
+    while skip < n:
+        cmd = [BIN, 'gen', str(seed), str(n), profile, str(maxlabels), str(skip)]
+        p = subprocess.run(cmd, stdout=subprocess.PIPE, stderr=subprocess.PIPE, text=True, timeout=3000)
+        got = []
+        for line in p.stdout.splitlines():
+            try:
+                got.append(json.loads(line))
+            except ValueError:
+                break
+        traces += got
+        if p.returncode == 0 and skip + len(got) == n:
+            break
+        died += 1
+        msg = 'harness died in trace %d of profile %s (rc %d): %s' % (skip + len(got), profile, p.returncode, p.stderr[-400:])
+        inp = recover_input(cmd, profile)
+        if inp is None or died > 6:
+            raise HarnessDied(msg, inp)
+        ABORTED.append(dict(profile=profile, index=skip + len(got), msg=msg, trace=inp))
+        skip += len(got) + 1
     for t in traces:
         t['profile'] = profile
-    if p.returncode != 0 or len(traces) != n:
-        raise HarnessDied('harness died after %d of %d traces (rc %d) while executing the last label of the recorded '
-                          'input: %s' % (len(traces), n, p.returncode, p.stderr[-500:]), recover_input(cmd, profile))
     return traces
 
 
@@ -598,6 +618,7 @@ def run_engine(seed, tier):
         res['cached'] = True
         return res
     t0 = time.time()
+    del ABORTED[:]
     traces = replay_traces(load_corpus()) if load_corpus() else []
     ncorpus = len(traces)
     for bi, (profile, n, ml) in enumerate(batches(tier)):
@@ -628,6 +649,7 @@ def run_engine(seed, tier):
             res['props']['C10']['monitor_fails'].append(dict(
                 trace=-1, step=0, msg='build() with timeouts code %d, runtime %d returned %d, expected %d'
                 % (row['code'], row['runtime'], row['result'], want)))
+    res['aborted'] = list(ABORTED)
     res['build_table_rows'] = len(table)
     res['exhaustive_scenarios'] = exh_done
     st = run_stress(60000 if tier == 'thorough' else 5000, seed)
